@@ -9,11 +9,13 @@ import fcntl, hashlib, json, os, re, shutil, subprocess, sys, time
 VERIF = os.path.dirname(os.path.dirname(os.path.abspath(__file__)))
 REPO = os.environ.get("PKV_REPO", "/repo")
 SPEC = os.path.join(VERIF, "spec")
-HARNESS = os.path.join(VERIF, "harness")
-WORK = os.path.join(VERIF, "work")
+# scratch overrides (used by tools/run_seeded.py to judge a mutated copy of the repository without
+# touching /repo, the registered evidence or the main cache); registered checks never set them
+HARNESS = os.environ.get("PKV_HARNESS", os.path.join(VERIF, "harness"))
+WORK = os.environ.get("PKV_WORK", os.path.join(VERIF, "work"))
 PKV = os.path.join(HARNESS, "target", "release", "pkv")
-EVID = os.path.join(VERIF, "evidence")
-REPLAYS = os.path.join(VERIF, "replays")
+EVID = os.environ.get("PKV_EVID", os.path.join(VERIF, "evidence"))
+REPLAYS = os.environ.get("PKV_REPLAYS", os.path.join(VERIF, "replays"))
 KNOWN = os.path.join(VERIF, "KNOWN_FINDINGS.txt")
 TLA_JAR = "/opt/veriftools/tla/tla2tools.jar:/opt/veriftools/tla/CommunityModules-deps.jar"
 
@@ -35,6 +37,15 @@ def _files(root, exts=None):
             if exts is None or os.path.splitext(f)[1] in exts:
                 out.append(os.path.join(d, f))
     return out
+
+
+def spec_hash():
+    h = hashlib.sha256()
+    for f in _files(SPEC, {".tla", ".cfg"}) + [os.path.abspath(__file__)]:
+        h.update(f.encode())
+        with open(f, "rb") as fh:
+            h.update(fh.read())
+    return h.hexdigest()[:20]
 
 
 def tree_hash():
@@ -69,6 +80,7 @@ class Ctx:
     def gc(self):
         root = os.path.join(WORK, "cache")
         ds = sorted((os.path.getmtime(os.path.join(root, d)), d) for d in os.listdir(root))
+        ds = [x for x in ds if not x[1].startswith("spec-") or x[1] != "spec-" + spec_hash()]
         for _, d in ds[:-3]:
             if d != self.hash:
                 shutil.rmtree(os.path.join(root, d), ignore_errors=True)
@@ -110,7 +122,13 @@ class Ctx:
     # ------------------------------------------------------------------ jobs
     def job(self, name):
         seeded = any(str(v).startswith("art:tr_") for v in JOBS[name].get("env", {}).values())
-        path = os.path.join(self.cache, "jobs", name + (".s%d" % self.seed if seeded else "") + ".json")
+        if not JOBS[name].get("env"):
+            # a job that reads nothing extracted from the code depends on the specification only
+            d = os.path.join(WORK, "cache", "spec-" + spec_hash())
+            os.makedirs(d, exist_ok=True)
+            path = os.path.join(d, name + ".json")
+        else:
+            path = os.path.join(self.cache, "jobs", name + (".s%d" % self.seed if seeded else "") + ".json")
         if os.path.exists(path):
             with open(path) as f:
                 return json.load(f)
